@@ -1,9 +1,9 @@
 CONSTANTS
-  FileLen = 12
-  Bs = {2, 3, 4, 5}
-  Ks = {1, 2, 3, 5}
+  FileLen = 10
+  Bs = {2, 3, 5}
+  Ks = {1, 3, 5}
   MaxOps = 4
-  MaxRead = 6
+  MaxRead = 5
   KeyAt = "abs"
 SPECIFICATION Spec
 INVARIANTS PosTrue Plain BufferSane Emit
